@@ -26,6 +26,14 @@ class MachineryFailure(RuntimeError):
     pass
 
 
+def mix(n):
+    """scrambled copy of a replay counter: replays choose their argument variants (container, index labels, option values) from it
+    by small moduli; the counter itself is also used to thin the quick tiers (every k-th behaviour), and n % k == 0 would tie the
+    variant to the thinning pattern (some variants would never be exercised)"""
+    import zlib
+    return zlib.crc32(str(n).encode())
+
+
 def load_known():
     try:
         with open(KNOWN_FILE) as f:
